@@ -28,7 +28,7 @@ func init() {
 		Real: []string{"service/rtsp pusher session (ANNOUNCE/SETUP/RECORD, interleaved frames through receive/ReadPacket)", "media.Stream + H264Cache", "rtp.Demuxer + depacketizers", "flv.Muxer + HTTP-FLV handler",
 			"mpegts.Muxer + hls.SegmentGenerator + Playlist", "sdp.ParseMetadata and the parameter-set decoders (hostile SDP)"},
 		Stub: []string{"TCP (sim.Conn)", "HTTP response writer of the FLV viewer", "RTP consumer is a recording media.Consumer"},
-		Rule: "one run = a publisher session pushing one clean GOP, then 1-3 malformed interleaved frames (fault kind x template x offset: truncation at an offset, byte corruption in the first 24 bytes, header-only / shorter-than-header packets, " +
+		Rule: "one run = a publisher session pushing one clean GOP, then 1-3 malformed interleaved frames (fault kind x template x offset: truncation at an offset, byte corruption in the first 24 bytes, header-only / shorter-than-header packets, RTP header extensions with lying lengths, " +
 			"aggregation and fragmentation units with lying sizes, bad AU-header sections, RTCP garbage of 0..40 bytes, unknown channel, random bytes) or a hostile SDP at ANNOUNCE, then four clean GOPs 6 s of media time apart; a second stream and a second session " +
 			"run beside it. Oracle (bounded liveness after the faults stop): the session and its stream survive, every later packet reaches the RTP consumer, every later NAL/AAC frame reaches the FLV viewer, the HLS playlist appears and its newest " +
 			"segments carry later frames, the second stream and session are untouched. evaluations = runs; distinct = distinct (fault kind, template, offset class, event-log hash)",
@@ -300,7 +300,7 @@ func buildC07src(tier string, fromCamera bool) sim.Scenario {
 		// faults
 		if !hostileSDP {
 			for f := 0; f < nFaults; f++ {
-				kind := tp.Choose(10)
+				kind := tp.Choose(11)
 				var raw []byte
 				tmplV := mkRTP(rtp.ChannelVideo, 96, vseq, 90000+7200, true, oracle.Pack(oracle.H264, []oracle.AU{{NALs: [][]byte{oracle.MakeNAL(oracle.H264, 7, 1, 12), oracle.MakeNAL(oracle.H264, 8, 2, 5), oracle.MakeNAL(oracle.H264, 5, 3, 60)}, TS: 1}}, 1400, func(n int) int {
 					if n == 4 {
@@ -367,6 +367,21 @@ func buildC07src(tier string, fromCamera bool) sim.Scenario {
 					raw = []byte{'$', byte(4 + tp.Choose(250)), 0, byte(len(tmpl.Data))}
 					raw = append(raw, tmpl.Data...)
 					name = "unknown-channel"
+				case 8: // a header extension (X bit) whose declared lengths lie: total length, or the element length of an RFC 8285 one-/two-byte extension
+					d := append([]byte(nil), tmpl.Data[:12]...)
+					d[0] |= 0x10
+					switch tp.Choose(4) {
+					case 0: // one-byte form, element longer than the extension
+						d = append(d, 0xBE, 0xDE, 0, 1, 0x1f, 1, 2, 3)
+					case 1: // two-byte form, element longer than the packet
+						d = append(d, 0x10, 0x00, 0, 1, 7, 200, 1, 2)
+					case 2: // extension length beyond the packet
+						d = append(d, 0x12, 0x34, 0xff, 0xff, 1, 2, 3, 4)
+					default: // extension header cut short
+						d = append(d, 0xBE, 0xDE, 0)
+					}
+					raw = frame(&rtp.Packet{Channel: tmpl.Channel, Data: d})
+					name = "lying-header-extension"
 				default: // random bytes as a packet
 					g := make([]byte, 12+tp.Choose(80))
 					for i := range g {
